@@ -1,5 +1,6 @@
 (* C02 — PseudoNetCDFFile.sliceDimensions (core/_files.py) AS REPAIRED by
-   fixes/C02-slice-orthogonal-per-axis.patch, C02-zip-keep-masks.patch, C02-zip-with-ints.patch.
+   fixes/C02-slice-orthogonal-per-axis.patch, C02-zip-keep-masks.patch, C02-zip-with-ints.patch,
+   C02-zip-empty-lists.patch.
    Executable model, no proofs.
    Arrays are flat C-order cell lists with explicit shapes (Base/ArrFlat.v); cells are abstract
    (a mask is part of the cell; the repaired code moves cells with numpy.ma throughout).
@@ -150,7 +151,8 @@ Definition impl_zip_var (P : nat) (sh : list nat) (rs : list rsel) (d : list A) 
   : option (list A) :=
   let a := slices_before_list rs in
   let ps := point_shape rs in
-  assign tsh (insert_at a P ps) (concat_rec a ps P (fun ii => oslice sh (pointify ii rs) d)).
+  if Nat.eqb P 0 then Some []      (* no points: `continue`, the pre-shaped variable is empty *)
+  else assign tsh (insert_at a P ps) (concat_rec a ps P (fun ii => oslice sh (pointify ii rs) d)).
 
 (* ---------------------------------------------------------------- whole file *)
 
@@ -169,10 +171,8 @@ Definition resolve_dims (dims : list nat) (kws : list (nat * sel)) : option (lis
                   | None => Some (RSlice (seq 0 (snd jn)))
                   end) (combine (seq 0 (length dims)) dims).
 
-(* skeleton shared by impl and spec: `zero_ok` says whether zipping empty lists is accepted,
-   fvar/fzip are the per-variable selections *)
+(* skeleton shared by impl and spec: fvar/fzip are the per-variable selections *)
 Definition slice_file_with
-    (zero_ok : bool)
     (fvar : list nat -> list rsel -> list A -> list nat -> option (list A))
     (fzip : nat -> list nat -> list rsel -> list A -> list nat -> option (list A))
     (f : file) (kws : list (nat * sel)) : option file :=
@@ -182,7 +182,6 @@ Definition slice_file_with
   let any := Nat.ltb 1 (length ll) in
   let P := hd 0%nat ll in
   if any && negb (forallb (Nat.eqb P) ll) then None else                   (* ValueError *)
-  if any && Nat.eqb P 0 && negb zero_ok then None else                     (* float index array *)
   match resolve_dims (f_dims f) kws with
   | None => None                                                            (* IndexError / step 0 *)
   | Some rdims =>
@@ -200,9 +199,16 @@ Definition slice_file_with
     end
   end.
 
-Definition impl_slice_file := slice_file_with false impl_slice_var impl_zip_var.
+(* well-formed file: variables only name existing dimensions and hold exactly their cells *)
+Definition wf_file (f : file) : bool :=
+  forallb (fun v => forallb (fun j => Nat.ltb j (length (f_dims f))) (v_dims v)
+                    && Nat.eqb (length (v_data v))
+                               (prodn (map (fun j => nth j (f_dims f) 0%nat) (v_dims v))))
+          (f_vars f).
+
+Definition impl_slice_file := slice_file_with impl_slice_var impl_zip_var.
 Definition spec_slice_file :=
-  slice_file_with true (fun sh rs d _ => Some (oslice sh rs d)) (fun P sh rs d _ => Some (zslice P sh rs d)).
+  slice_file_with (fun sh rs d _ => Some (oslice sh rs d)) (fun P sh rs d _ => Some (zslice P sh rs d)).
 
 End Slice.
 
